@@ -1,6 +1,7 @@
 package c11
 
 import (
+	"crypto/x509"
 	"encoding/json"
 	"fmt"
 	"math/rand/v2"
@@ -358,6 +359,68 @@ func (e *env) prototypes(c *config.Configuration) {
 	addCtx("hx-url", map[string]any{"endpoint": map[string]any{"url": S + "/ctx?cc=max-age%3D600&who={{ .Subject.ID | urlenc }}", "method": "GET",
 		"http_cache": map[string]any{"enabled": true}}, "cache_ttl": "0s"})
 
+	// values rendered from attributes of the request (catalogue level: "rq"; "st" holds a constant the rule level replaces),
+	// used in the endpoint URL, in an endpoint header resp. in the payload
+	for ai, tpl := range requestAttrTemplates {
+		for _, where := range []string{"url", "hdr", "pay"} {
+			for _, lvl := range []string{"rq", "st"} {
+				val := tpl
+				if lvl == "st" {
+					if ai > 0 {
+						continue
+					}
+					val = "static"
+				}
+				ep := map[string]any{"url": S + "/ctx"}
+				pay := `{"fixed": true}`
+				switch where {
+				case "url":
+					ep["url"] = S + "/ctx/t-{{ .Values.t | urlenc }}"
+				case "hdr":
+					ep["headers"] = map[string]any{"X-Val": "{{ .Values.t }}"}
+				case "pay":
+					pay = `{"t": {{ quote .Values.t }} }`
+				}
+				id := fmt.Sprintf("-%s-%s-%d", lvl, where, ai)
+				addCtx("cx"+id, map[string]any{"endpoint": ep, "values": map[string]any{"t": val}, "payload": pay, "cache_ttl": longTTL})
+				epz := map[string]any{}
+				for k, v := range ep {
+					epz[k] = v
+				}
+				if where == "url" {
+					epz["url"] = S + "/authz/t-{{ .Values.t | urlenc }}"
+				} else {
+					epz["url"] = S + "/authz"
+				}
+				addAuthz("ra"+id, map[string]any{"endpoint": epz, "values": map[string]any{"t": val}, "payload": pay,
+					"forward_response_headers_to_upstream": []string{"X-Authz-Echo"}, "cache_ttl": longTTL})
+			}
+		}
+	}
+	// generic authenticators sharing one identity endpoint: other payload template; with / without session_lifespan
+	for _, realm := range []string{"a", "b"} {
+		addAuthn("ga-realm-"+realm, "generic", map[string]any{
+			"identity_info_endpoint":     map[string]any{"url": S + "/identity", "method": "POST", "headers": map[string]any{"X-Credential": "{{ .AuthenticationData }}"}},
+			"payload":                    "realm-" + realm + ":{{ .AuthenticationData }}",
+			"authentication_data_source": []any{map[string]any{"header": "X-Session"}},
+			"subject":                    map[string]any{"id": "sub"}, "cache_ttl": longTTL})
+	}
+	for id, lifespan := range map[string]map[string]any{"ga-nolife": nil, "ga-life": {"active": "active", "not_after": "exp"}} {
+		cfg := map[string]any{
+			"identity_info_endpoint":     map[string]any{"url": S + "/identity/sessions", "method": "GET", "headers": map[string]any{"X-Credential": "{{ .AuthenticationData }}"}},
+			"authentication_data_source": []any{map[string]any{"header": "X-Session"}},
+			"subject":                    map[string]any{"id": "sub"}, "cache_ttl": longTTL}
+		if lifespan != nil {
+			cfg["session_lifespan"] = lifespan
+		}
+		addAuthn(id, "generic", cfg)
+	}
+	// jwt authenticators sharing one JWKS endpoint: the certificate of a JWK is validated (against the trust store) or not
+	addAuthn("jw-lax", "jwt", map[string]any{"jwks_endpoint": map[string]any{"url": S + "/jwks/{{ .TokenIssuer }}"},
+		"assertions": map[string]any{"issuers": []string{"iss-certs"}}, "validate_jwk": false, "cache_ttl": longTTL})
+	addAuthn("jw-strict", "jwt", map[string]any{"jwks_endpoint": map[string]any{"url": S + "/jwks/{{ .TokenIssuer }}"},
+		"assertions": map[string]any{"issuers": []string{"iss-certs"}}, "validate_jwk": true, "trust_store": e.pki.TrustStorePath, "cache_ttl": longTTL})
+
 	// answers with numbers, lists and nested objects (announced as JSON and as YAML), which expressions and later steps look at
 	for _, f := range [][2]string{{"json", ""}, {"yaml", "?ct=application%2Fyaml"}} {
 		addAuthz("ra-num-"+f[0], map[string]any{"endpoint": map[string]any{"url": S + "/authz" + f[1]}, "payload": numPayload, "cache_ttl": longTTL})
@@ -397,6 +460,21 @@ func (e *env) prototypes(c *config.Configuration) {
 }
 
 // ---------------------------------------------------------------------------------------------
+
+// requestAttrTemplates render attributes of the client request; requestAttr makes two requests differing in exactly that one.
+var requestAttrTemplates = []string{`{{ .Request.Header "X-Tenant" }}`, `{{ .Request.Cookie "trk" }}`, `{{ .Request.URL.Path }}`, `{{ .Request.Method }}`}
+
+func requestAttr(ai int, x string) (ck.Req, ck.Req) {
+	switch ai {
+	case 0:
+		return ck.Req{Headers: hdr("X-Tenant", "ta"+x)}, ck.Req{Headers: hdr("X-Tenant", "tb"+x)}
+	case 1:
+		return ck.Req{Cookies: hdr("trk", "ka"+x)}, ck.Req{Cookies: hdr("trk", "kb"+x)}
+	case 2:
+		return ck.Req{Path: "/res/a" + x}, ck.Req{Path: "/res/b" + x}
+	}
+	return ck.Req{Method: "GET"}, ck.Req{Method: "DELETE"}
+}
 
 func sub(id, role string) *ck.SubjectSpec {
 	return &ck.SubjectSpec{ID: id, Attributes: map[string]any{"role": role, "a0": "x"}}
@@ -537,6 +615,23 @@ func (e *env) pairs() {
 			}
 		}
 
+		// ---- values rendered from a request attribute (which one rotates with the round), catalogue level and rule level,
+		// used in the endpoint URL / an endpoint header / the payload: same subject, requests differing in that attribute only
+		ai := i % len(requestAttrTemplates)
+		rqA, rqB := requestAttr(ai, x)
+		for _, where := range []string{"url", "hdr", "pay"} {
+			for _, k := range [][2]string{{"ctx", "cx"}, {"authz", "ra"}} {
+				m := map[string]string{"ctx": "generic_contextualizer", "authz": "remote_authorizer"}[k[0]]
+				cat := fmt.Sprintf("%s-rq-%s-%d", k[1], where, ai)
+				add(m, "request-attribute-in-value:catalogue-level:used-in-"+where, one,
+					mstep{Kind: k[0], Proto: cat, Step: ck.Step{Subject: sub(u1, r1), Req: rqA}}, mstep{Kind: k[0], Proto: cat, Step: ck.Step{Subject: sub(u1, r1), Req: rqB}})
+				rule := fmt.Sprintf("%s-st-%s-0", k[1], where)
+				ov := map[string]any{"values": map[string]any{"t": requestAttrTemplates[ai]}}
+				add(m, "request-attribute-in-value:rule-level:used-in-"+where, one,
+					mstep{Kind: k[0], Proto: rule, Override: ov, Step: ck.Step{Subject: sub(u1, r1), Req: rqA}}, mstep{Kind: k[0], Proto: rule, Override: ov, Step: ck.Step{Subject: sub(u1, r1), Req: rqB}})
+			}
+		}
+
 		// ---- generic authenticator
 		c1 := ck.Opaque{Sub: u1, Nonce: x}.Token()
 		c2 := ck.Opaque{Sub: u2, Nonce: x}.Token()
@@ -563,6 +658,13 @@ func (e *env) pairs() {
 		add("generic_authenticator", "endpoint-header-value-of-other-prototype", one, gt("ga-ten-a", c1), gt("ga-ten-b", c1))
 		add("remote_authorizer", "endpoint-header-value-of-other-prototype", one, raP("ra-low-a", ck.Step{Subject: sub(u1, r1)}, nil), raP("ra-low-b", ck.Step{Subject: sub(u1, r1)}, nil))
 		add("generic_contextualizer", "endpoint-header-value-of-other-prototype", one, cxP("cx-low-a", ck.Step{Subject: sub(u1, r1)}, nil), cxP("cx-low-b", ck.Step{Subject: sub(u1, r1)}, nil))
+		// two catalogue entries on one identity endpoint: another payload template; session_lifespan absent / present with a
+		// credential whose session is inactive resp. expired
+		add("generic_authenticator", "payload-of-other-prototype", one, gt("ga-realm-a", c1), gt("ga-realm-b", c1))
+		inactive, past := false, time.Now().Add(-time.Hour).Unix()
+		for _, cred := range []string{ck.Opaque{Sub: u1, Active: &inactive, Nonce: x}.Token(), ck.Opaque{Sub: u1, Exp: &past, Nonce: x}.Token()} {
+			add("generic_authenticator", "session-lifespan-of-other-prototype", one, gt("ga-nolife", cred), gt("ga-life", cred))
+		}
 		gp := func(cred string) mstep {
 			return mstep{Kind: "authn", Proto: "ga-payload", Step: ck.Step{Req: ck.Req{Cookies: hdr("app-session", cred)}}}
 		}
@@ -689,7 +791,32 @@ func (e *env) jwtPairs(add func(mechanism, component, class string, a, b mstep),
 		e.srv.RegisterJWKS("idp-a", ck.JWKS(kmd))
 		e.jwtKeys = map[string]*ck.SigningKey{"k1": k1, "k2": k2, "k1b": k1b, "c": kc, "bc": kbc, "md1": kmd}
 	}
+	if round == 0 {
+		// keys whose certificate a validating authenticator rejects: issued by a CA which is not in the trust store,
+		// issued by the trusted CA for another key usage; and one it accepts
+		end := now.Add(24 * time.Hour)
+		if rogue, err := ck.NewPKI(e.dir); err == nil {
+			e.jwtKeys["untrusted"], _ = rogue.NewKey("untrusted", &end)
+		}
+		e.jwtKeys["usage"], _ = e.pki.NewKeyWithUsage("usage", &end, x509.KeyUsageKeyEncipherment)
+		e.jwtKeys["trusted"], _ = e.pki.NewKey("trusted", &end)
+		var ks []*ck.SigningKey
+		for _, n := range []string{"untrusted", "usage", "trusted"} {
+			if e.jwtKeys[n] != nil {
+				ks = append(ks, e.jwtKeys[n])
+			}
+		}
+		e.srv.RegisterJWKS("iss-certs", ck.JWKS(ks...))
+	}
 	k := e.jwtKeys
+	for _, n := range []string{"untrusted", "usage", "trusted"} {
+		if k[n] == nil {
+			continue
+		}
+		lax, strict := mk("iss-certs", n, u1, k[n]), mk("iss-certs", n, u1, k[n])
+		lax.Proto, strict.Proto = "jw-lax", "jw-strict"
+		add("jwt_authenticator", "jwk-validation-of-other-prototype:"+n+"-certificate", "one-component", lax, strict)
+	}
 	// keys discovered through the metadata document: issuers trusted by default (metadata), explicitly, on rule level
 	mi := e.metadataIssuer()
 	md := func(proto, iss string, ov map[string]any) mstep {
